@@ -14,7 +14,7 @@ def F(runs):
 
 RAW1 = S([27, 91, 51, 49, 109, 114, 27, 91, 51, 57, 109])        # ESC[31m r ESC[39m as a plain str
 RAW2 = S([120, 155, 49, 109, 121])                                  # x CSI 1 m y (8-bit introducer)
-NEWPOOL_Q = [S([]), S([120]), S([120, 121]), F([]), F([[[], [0] * 8]]), F([[[120], fmtlib.RED]]),
+NEWPOOL_Q = [S([]), S([120]), S([120, 121]), S([32]), F([]), F([[[], [0] * 8]]), F([[[120], fmtlib.RED]]),
              F([[[120], fmtlib.RED], [[121, 122], fmtlib.BOLD_ON_BLUE]]), F([[[], fmtlib.RED], [[120], fmtlib.PLAIN]])]
 
 
